@@ -115,7 +115,7 @@ ASSUME = ['effects / values with user-defined __eq__ are outside the universe']
 
 def main(argv):
     return run_check('C01', [DecideStream()], argv, trusted_base=TRUSTED, assumptions=ASSUME,
-                     translated=('guard', 'checker'))
+                     translated=('guard', 'checker', 'on_generated'))
 
 
 if __name__ == '__main__':
